@@ -241,9 +241,32 @@ pub const BYSTANDERS: [(&str, &str); 9] = [
 	("constant with a cast and a size-of", "const BY7: u8 = |:i64| as u8;\n"),
 ];
 
+/// More predecessors, of kinds that the seeded "history" defects needed (heads whose parameters are
+/// named like the locals of the cell, calls with computed and aggregate arguments, labels of the
+/// names the statement contexts use, string literals with escapes, wide integers, opaque
+/// structures, constants made of several size-ofs); these stand in front of the cell only.
+pub const PREDECESSORS: [(&str, &str); 12] = [
+	("external head whose parameters are named like locals of the cell", "extern fn put(v_i32: i32, p: &i32, arr: u8, st: usize);\n"),
+	("function head whose parameters are named like locals of the cell", "fn later(r: i32, wd: i32, base: u8);\n"),
+	("public function", "pub fn exported(x: i32) -> i32\n{\n\treturn: x\n}\n"),
+	("array constant and a function indexing it", "const BYLIT: [3]i32 = [1, 2, 3];\nfn bylit(i: usize) -> i32\n{\n\treturn: BYLIT[i]\n}\n"),
+	("function printing a string with escapes", "fn bytext()\n{\n\tprint!(\"a\\x41\\u{e9}\\n\", 'q', \"\\t\");\n}\n"),
+	("function with the labels of the statement contexts", "fn bylabels(c: i32)\n{\n\tif c == 0\n\t\tgoto l_done;\n\tl_next:\n\tl_done:\n}\n"),
+	("function ending in an if with an empty else", "fn byelse(c: i32)\n{\n\tvar x: i32 = 0;\n\tif c == 0\n\t{\n\t\tx = 1;\n\t}\n\telse\n\t{\n\t}\n}\n"),
+	("function with a pointer to pointer and a view of a structure", "struct ByS7\n{\n\tm: i32,\n}\nword32 ByW7\n{\n\tm: i32,\n}\nfn bydeep(pp: &&i32, q: ByS7, w: ByW7) -> i32\n{\n\tpp = q.m + w.m;\n\treturn: pp\n}\n"),
+	("function with wide integers", "fn bywide(a: u128, b: i128) -> u128\n{\n\tvar c: u128 = (a << 100u128) | 18446744073709551615;\n\tvar d: i128 = -b;\n\treturn: c + (d as u128)\n}\n"),
+	("function calling with a computed and an aggregate argument, as a statement", "struct ByS9\n{\n\tm: i32,\n}\nfn bycallee(k: i32, v: []i32, s: ByS9)\n{\n}\nfn bycall(n: i32)\n{\n\tvar loc: [2]i32 = [1, 2];\n\tvar sl: ByS9 = ByS9 { m: 2 };\n\tbycallee(n + 1, loc, sl);\n\tbycallee(-n, [n, 2], ByS9 { m: n });\n}\n"),
+	("opaque structure and a function head taking a pointer to it", "struct ByOpaque;\nfn byopen(h: &ByOpaque);\n"),
+	("constant made of several size-ofs", "struct ByS11\n{\n\tm: i32,\n}\nword32 ByW11\n{\n\tm: i32,\n}\nconst BYSUM: usize = |:i64| + |:ByS11| + |:[2]ByW11|;\n"),
+];
+
 fn context_name(context: usize) -> String
 {
-	if context >= 100
+	if context >= 200
+	{
+		format!("behind a {}", PREDECESSORS[context - 200].0)
+	}
+	else if context >= 100
 	{
 		let b = (context - 100) / 2;
 		format!("{} {}", if (context - 100) % 2 == 0 { "behind a" } else { "in front of a" }, BYSTANDERS[b].0)
@@ -256,6 +279,10 @@ fn context_name(context: usize) -> String
 
 fn with_bystander(text: &str, context: usize) -> String
 {
+	if context >= 200
+	{
+		return format!("{}{text}", PREDECESSORS[context - 200].1);
+	}
 	let b = (context - 100) / 2;
 	if (context - 100) % 2 == 0 { format!("{}{text}", BYSTANDERS[b].1) } else { format!("{text}{}", BYSTANDERS[b].1) }
 }
@@ -809,6 +836,7 @@ pub fn drive(d: &mut Driver)
 	}
 	d.phase("type matrix inside statement contexts", jobs);
 	d.bound("bystander declarations (in front of and behind the program of every cell)", json!(BYSTANDERS.iter().map(|b| b.0).collect::<Vec<_>>()));
+	d.bound("predecessor declarations (in front of the program of every cell)", json!(PREDECESSORS.iter().map(|b| b.0).collect::<Vec<_>>()));
 	let mut jobs = Vec::new();
 	for f in FAMILIES
 	{
@@ -896,7 +924,7 @@ fn judge_bystanders(cell: &Cell, index: usize, w: &mut WorkerCtx)
 		(v.accepted(), codes)
 	};
 	let mut plain: Option<(bool, Vec<u16>)> = None;
-	for context in 100..100 + 2 * BYSTANDERS.len()
+	for context in (100..100 + 2 * BYSTANDERS.len()).chain(200..200 + PREDECESSORS.len())
 	{
 		w.result.states += 1;
 		w.result.transitions += 1;
